@@ -1,10 +1,10 @@
 use chrono::Duration;
 use nom::branch::alt;
 use nom::bytes::complete::tag;
-use nom::character::complete::char;
+use nom::character::complete::{char, digit0};
 use nom::combinator::{map, opt};
+use nom::sequence::preceded;
 use nom::multi::many1;
-use nom::number::complete::double;
 use nom::IResult;
 
 // Constants representing time units in nanoseconds
@@ -34,11 +34,23 @@ const MICROSECOND: u128 = 1_000;
 pub fn parse_duration(i: &str) -> IResult<&str, Duration> {
     let (i, neg) = opt(parse_negative)(i)?;
     if i == "0" {
-        return Ok((i, Duration::zero()));
+        return Ok(("", Duration::zero()));
     }
-    let (i, duration) = many1(parse_number_unit)(i)
-        .map(|(i, d)| (i, d.iter().fold(Duration::zero(), |acc, next| acc + *next)))?;
-    Ok((i, duration * if neg.is_some() { -1 } else { 1 }))
+    let (i, terms) = many1(parse_number_unit)(i)?;
+    // Sum the exact nanosecond counts; anything outside 64-bit nanoseconds is not a duration.
+    let mut total: i128 = 0;
+    for nanos in terms {
+        total = total.checked_add(nanos).ok_or_else(|| too_large(i))?;
+    }
+    if neg.is_some() {
+        total = -total;
+    }
+    let nanos = i64::try_from(total).map_err(|_| too_large(i))?;
+    Ok((i, Duration::nanoseconds(nanos)))
+}
+
+fn too_large(i: &str) -> nom::Err<nom::error::Error<&str>> {
+    nom::Err::Failure(nom::error::Error::new(i, nom::error::ErrorKind::TooLarge))
 }
 
 enum Unit {
@@ -51,7 +63,7 @@ enum Unit {
 }
 
 impl Unit {
-    fn nanos(&self) -> i64 {
+    fn nanos(&self) -> i128 {
         match self {
             Unit::Nanosecond => 1,
             Unit::Microsecond => 1_000,
@@ -63,11 +75,41 @@ impl Unit {
     }
 }
 
-fn parse_number_unit(i: &str) -> IResult<&str, Duration> {
-    let (i, num) = double(i)?;
+/// One `Number Unit` term as an exact count of nanoseconds (truncated below one nanosecond).
+/// The number is plain decimal: digits with an optional fraction. Exponents, `inf` and `nan`
+/// are not numbers here.
+fn parse_number_unit(i: &str) -> IResult<&str, i128> {
+    let (i, int_part) = digit0(i)?;
+    let (i, frac_part) = opt(preceded(char('.'), digit0))(i)?;
+    let frac_part = frac_part.unwrap_or("");
+    if int_part.is_empty() && frac_part.is_empty() {
+        return Err(nom::Err::Error(nom::error::Error::new(
+            i,
+            nom::error::ErrorKind::Digit,
+        )));
+    }
     let (i, unit) = parse_unit(i)?;
-    let duration = to_duration(num, unit);
-    Ok((i, duration))
+    let unit = unit.nanos();
+    let mut nanos: i128 = 0;
+    for d in int_part.bytes() {
+        nanos = nanos
+            .checked_mul(10)
+            .and_then(|n| n.checked_add((d - b'0') as i128))
+            .filter(|n| *n <= i64::MAX as i128)
+            .ok_or_else(|| too_large(i))?;
+    }
+    nanos = nanos.checked_mul(unit).ok_or_else(|| too_large(i))?;
+    // fraction: digit k contributes d * unit / 10^k; only the first 22 digits can matter
+    let mut scale: i128 = 1;
+    let mut frac: i128 = 0;
+    for d in frac_part.bytes().take(22) {
+        frac = frac * 10 + (d - b'0') as i128;
+        scale *= 10;
+    }
+    nanos = nanos
+        .checked_add(frac * unit / scale)
+        .ok_or_else(|| too_large(i))?;
+    Ok((i, nanos))
 }
 
 fn parse_negative(i: &str) -> IResult<&str, ()> {
@@ -84,10 +126,6 @@ fn parse_unit(i: &str) -> IResult<&str, Unit> {
         map(char('m'), |_| Unit::Minute),
         map(char('s'), |_| Unit::Second),
     ))(i)
-}
-
-fn to_duration(num: f64, unit: Unit) -> Duration {
-    Duration::nanoseconds((num * unit.nanos() as f64).trunc() as i64)
 }
 
 /// Formats a [`Duration`] into a string. String returns a string representing the
